@@ -749,6 +749,29 @@ pub fn c18_scenario(name: &str, n: usize) -> Result<String, String> {
             t.clear();
             Ok(format!("found={} min={:?} max={:?} len={} after_clear={}", found, mn, mx, len, t.len()))
         }
+        "build-remove" => {
+            // removals at every position of a chain-shaped tree: a key near the maximum (has a successor, reached through
+            // a long run of links), a key near the minimum, the middle, then everything in ascending or descending order
+            let mut t = build(style);
+            let n32 = n as u32;
+            let mut removed = 0usize;
+            for k in [n32 - 2, 1, n32 / 2, n32 - 1, 0] {
+                if t.remove(&k).is_some() {
+                    removed += 1;
+                }
+            }
+            let asc = parts.get(2).cloned().unwrap_or("asc") == "asc";
+            for i in 0..n32 {
+                let k = if asc { i } else { n32 - 1 - i };
+                if t.remove(&k).is_some() {
+                    removed += 1;
+                }
+            }
+            if removed != n || t.len() != 0 {
+                return Err(format!("removed {} of {} keys, len {}", removed, n, t.len()));
+            }
+            Ok(format!("removed {}", removed))
+        }
         "drop" => {
             let t = build(style);
             let len = t.len();
@@ -802,10 +825,10 @@ pub fn c18_scenario(name: &str, n: usize) -> Result<String, String> {
             drop(t);
             Ok(format!("set dropped {}", len))
         }
-        "comb-intersection" | "comb-difference" | "comb-intersection-f32" | "comb-difference-f32" | "comb-corner-intersection" | "comb-corner-difference" | "comb-corner-intersection-f32" | "comb-corner-difference-f32" => {
+        "comb-intersection" | "comb-difference" | "comb-intersection-f32" | "comb-difference-f32" | "comb-corner-intersection" | "comb-corner-difference" | "comb-corner-intersection-f32" | "comb-corner-difference-f32" | "comb-stair-intersection" | "comb-stair-corner-difference" => {
             use crate::geom::Op;
             use crate::iface::{run_op, Pairing};
-            let (a, b) = if parts[0].contains("corner") { crate::gen::comb_corner(n) } else { crate::gen::comb(n) };
+            let (a, b) = if parts[0].contains("stair") { crate::gen::staircase(n) } else if parts[0].contains("corner") { crate::gen::comb_corner(n) } else { crate::gen::comb(n) };
             let op = if parts[0].contains("intersection") { Op::Intersection } else { Op::Difference };
             // the difference stops early only when the small box is the subject
             let (a, b) = if op == Op::Difference && parts[0].contains("corner") { (b, a) } else { (a, b) };
@@ -819,7 +842,13 @@ pub fn c18_scenario(name: &str, n: usize) -> Result<String, String> {
     }
 }
 
-pub const C18_SCENARIOS: [&str; 16] = [
+pub const C18_SCENARIOS: [&str; 22] = [
+    "build-remove:asc:asc",
+    "build-remove:asc:desc",
+    "build-remove:desc:asc",
+    "build-remove:desc:desc",
+    "build-remove:zigzag:asc",
+    "build-remove:random:desc",
     "build-query-clear:asc",
     "build-query-clear:desc",
     "build-query-clear:zigzag",
@@ -837,4 +866,4 @@ pub const C18_SCENARIOS: [&str; 16] = [
     "set-drop:asc",
     "set-drop:desc",
 ];
-pub const C18_BOOLEAN_SCENARIOS: [&str; 8] = ["comb-intersection", "comb-difference", "comb-intersection-f32", "comb-difference-f32", "comb-corner-intersection", "comb-corner-difference", "comb-corner-intersection-f32", "comb-corner-difference-f32"];
+pub const C18_BOOLEAN_SCENARIOS: [&str; 10] = ["comb-stair-intersection", "comb-stair-corner-difference", "comb-intersection", "comb-difference", "comb-intersection-f32", "comb-difference-f32", "comb-corner-intersection", "comb-corner-difference", "comb-corner-intersection-f32", "comb-corner-difference-f32"];
